@@ -4,6 +4,7 @@ import TantivyModel.Proofs.PhraseSlop
 import TantivyModel.Proofs.OrderEnc
 import TantivyModel.Proofs.LeafTree
 import TantivyModel.Proofs.JsonRange
+import TantivyModel.Proofs.PhraseAlign
 /-!
 # C03 — Queries match exactly the documents their logical meaning prescribes
 
@@ -414,6 +415,89 @@ theorem C03_range_paths_agree (w : Nat) (lo hi : BndN) (v : Nat) (hv : v < 256 ^
   cases lo <;> cases hi <;> simp only [bndBe, bndBelow] at hlo hhi ⊢ <;>
     simp [L, R, hlo, hhi] <;> rw [Bool.eq_iff_iff] <;> simp <;> omega
 
+/-! ## alignment arithmetic of phrases and phrase prefixes (offsets, gaps) -/
+
+/-- the common offset on which the position lists are aligned does not matter: any `mx` above
+every term offset gives the same exact and sloppy matches as `maxOff terms` (this is what allows the
+phrase-prefix scorer to align the full terms on the maximum of *all* offsets, the prefix's included) -/
+theorem C03_phrase_alignment_shift_invariant (d : ADoc) (f mx : Nat) (terms : List (Nat × Bytes))
+    (slop : Nat) (hmx : maxOff terms ≤ mx) :
+    phraseExact (adjusted d f mx terms) = phraseExact (adjusted d f (maxOff terms) terms)
+      ∧ phraseSlop (adjusted d f mx terms) slop = phraseSlop (adjusted d f (maxOff terms) terms) slop := by
+  have e : mx = maxOff terms + (mx - maxOff terms) := by omega
+  rw [e, adjusted_shift d f (maxOff terms) (mx - maxOff terms) terms (fun ot h => le_maxOff h),
+    phraseExact_shift, phraseSlop_shift]
+  exact ⟨rfl, rfl⟩
+
+/-- exact phrase, any number of terms, arbitrary offsets: a match is a choice of one position per
+term such that all positions minus their offsets coincide -/
+theorem C03_phrase_exact_iff (d : ADoc) (f : Nat) (terms : List (Nat × Bytes)) (hne : terms ≠ []) :
+    semPhrase d f terms 0 = true ↔
+      ∃ v, ∀ ot ∈ terms, ∃ pos ∈ positionsOf d f ot.2, pos + (maxOff terms - ot.1) = v := by
+  have hadj : adjusted d f (maxOff terms) terms ≠ [] := by
+    unfold adjusted; simpa using hne
+  simp only [semPhrase, if_true]
+  rw [phraseExact_iff _ hadj]
+  constructor
+  · rintro ⟨v, h⟩; exact ⟨v, (mem_adjusted_iff d f _ terms v).mp h⟩
+  · rintro ⟨v, h⟩; exact ⟨v, (mem_adjusted_iff d f _ terms v).mpr h⟩
+
+/-- phrase prefix with arbitrary offsets (a gap may precede the prefix term): with
+`mx = max (maxOff terms) poff`, a match is a position of some term starting with `pre` and one
+position per full term, all aligned on the same value -/
+theorem C03_phrase_prefix_iff (d : ADoc) (f : Nat) (terms : List (Nat × Bytes)) (poff : Nat) (pre : Bytes)
+    (hne : terms ≠ []) :
+    semPhrasePrefix d f terms poff pre = true ↔
+      ∃ v, (∃ p ∈ d.postings, (p.field == f && isPrefix pre p.term) = true
+              ∧ ∃ pos ∈ p.positions, pos + (max (maxOff terms) poff - poff) = v)
+        ∧ ∀ ot ∈ terms, ∃ pos ∈ positionsOf d f ot.2, pos + (max (maxOff terms) poff - ot.1) = v := by
+  have hadj : adjusted d f (max (maxOff terms) poff) terms ≠ [] := by
+    unfold adjusted; simpa using hne
+  have hsem : semPhrasePrefix d f terms poff pre
+      = phraseExact (((d.postings.filter (fun p => p.field == f && isPrefix pre p.term)).flatMap
+          (fun p => p.positions.map (· + (max (maxOff terms) poff - poff))))
+          :: adjusted d f (max (maxOff terms) poff) terms) := by
+    unfold semPhrasePrefix
+    simp only
+  rw [hsem]
+  · rw [phraseExact_iff _ (by simp)]
+    constructor
+    · rintro ⟨v, h⟩
+      refine ⟨v, ?_, (mem_adjusted_iff d f _ terms v).mp (fun l hl => h l (by simp [hl]))⟩
+      have hs := h _ (List.mem_cons_self)
+      obtain ⟨p, hp, hv⟩ := List.mem_flatMap.mp hs
+      obtain ⟨pos, hpos, he⟩ := List.mem_map.mp hv
+      have hp' := List.mem_filter.mp hp
+      exact ⟨p, hp'.1, hp'.2, pos, hpos, he⟩
+    · rintro ⟨v, ⟨p, hp, hpre, pos, hpos, he⟩, hall⟩
+      refine ⟨v, ?_⟩
+      intro l hl
+      rcases List.mem_cons.mp hl with rfl | hl
+      · exact List.mem_flatMap.mpr ⟨p, List.mem_filter.mpr ⟨hp, hpre⟩, List.mem_map.mpr ⟨pos, hpos, he⟩⟩
+      · exact (mem_adjusted_iff d f _ terms v).mpr hall l hl
+
+/-- one full term at offset 0 and the prefix term `g` positions later (`g - 1` tokens in between):
+a match is an occurrence of the full term followed, exactly `g` positions later, by a term that
+starts with the prefix -/
+theorem C03_phrase_prefix_gap (d : ADoc) (f : Nat) (t pre : Bytes) (g : Nat) :
+    semPhrasePrefix d f [(0, t)] g pre = true ↔
+      ∃ pos ∈ positionsOf d f t, ∃ p ∈ d.postings,
+        (p.field == f && isPrefix pre p.term) = true ∧ pos + g ∈ p.positions := by
+  rw [C03_phrase_prefix_iff d f [(0, t)] g pre (by simp)]
+  have hm : max (maxOff [(0, t)]) g = g := by simp [maxOff]
+  rw [hm]
+  constructor
+  · rintro ⟨v, ⟨p, hp, hpre, pos', hpos', he'⟩, hall⟩
+    obtain ⟨pos, hpos, he⟩ := hall (0, t) (by simp)
+    refine ⟨pos, hpos, p, hp, hpre, ?_⟩
+    have : pos + g = pos' := by simp at he he'; omega
+    rw [this]; exact hpos'
+  · rintro ⟨pos, hpos, p, hp, hpre, hmem⟩
+    refine ⟨pos + g, ⟨p, hp, hpre, pos + g, hmem, by simp⟩, ?_⟩
+    intro ot hot
+    simp at hot; subst hot
+    exact ⟨pos, hpos, by simp⟩
+
 /-! ## range over a numeric JSON path: bound type × column type -/
 
 /-- `search_on_json_numerical_field`, integer bounds on integer columns: for every bound kind
@@ -500,6 +584,11 @@ example : JsonRange.inCol .u64 0 ∧ (JsonRange.B.excl (.i (-3))).wf ∧ JsonRan
     decide
   · show -(2 ^ 63) ≤ (-3 : Int) ∧ (-3 : Int) ≤ JsonRange.I64MAX
     decide
+-- "a x b…": full term a at 0, a term starting with b two positions later
+example :
+    let d : ADoc := ⟨1, [⟨1, [97], [0]⟩, ⟨1, [120], [1]⟩, ⟨1, [98, 99], [2]⟩], []⟩
+    semPhrasePrefix d 1 [(0, [97])] 2 [98] = true ∧ semPhrasePrefix d 1 [(0, [97])] 1 [98] = false
+      ∧ maxOff [(0, [97]), (2, [98])] ≤ 5 := by decide
 example : (([⟨1, [], []⟩, ⟨2, [], []⟩] : List ADoc)).Perm [⟨2, [], []⟩, ⟨1, [], []⟩] :=
   List.Perm.swap _ _ _
 
